@@ -857,6 +857,33 @@ pub fn gen_c15(seed: u64, thorough: bool) -> Case {
     }
 }
 
+/// Sibling positions (same placement; side, castling rights or en-passant file differ) searched back to back with
+/// one table at the same depth, the position with more rights first: a hash that forgot a feature hands the second
+/// search the first one's move.
+pub fn gen_sibling_pairs(prop: &str, seed: u64) -> Case {
+    let mut rng = Rng::new(seed, 0x51b);
+    let mut case = Case::new(prop, "direct-sibling-positions", seed, Mode::Direct);
+    direct_params(&mut case, 400_000);
+    for _ in 0..rng.range(1, 2) {
+        let grp = *rng.pick(SIBLINGS);
+        let d = rng.range(1, 3) as u8;
+        let mut idx: Vec<usize> = (0..grp.len()).collect();
+        if rng.chance(1, 4) {
+            // any order
+            for i in (1..idx.len()).rev() {
+                let j = rng.below(i as u64 + 1) as usize;
+                idx.swap(i, j);
+            }
+        }
+        let take = rng.range(2, grp.len() as u64) as usize;
+        for (n, &i) in idx.iter().take(take).enumerate() {
+            let dd = if n == 0 || rng.chance(3, 4) { d } else { rng.range(1, d as u64) as u8 };
+            case.items.push(ditem(grp[i], &[], Some(dd), None));
+        }
+    }
+    case
+}
+
 /// The case a seed expands to for a property's default workload mix.
 pub fn gen(prop: &str, seed: u64, thorough: bool) -> Case {
     match prop {
@@ -875,10 +902,11 @@ pub fn gen(prop: &str, seed: u64, thorough: bool) -> Case {
             }
         }
         "C06" | "C18" => match seed % 10 {
-            0..=3 => gen_session(prop, seed, 1, true),
-            4 => gen_session(prop, seed, 1, false),
-            5..=7 => gen_direct_history(prop, seed, true),
-            _ => gen_direct_history(prop, seed, false),
+            0..=2 => gen_session(prop, seed, 1, true),
+            3 => gen_session(prop, seed, 1, false),
+            4..=6 => gen_direct_history(prop, seed, true),
+            7 => gen_direct_history(prop, seed, false),
+            _ => gen_sibling_pairs(prop, seed),
         },
         "C07" => gen_c07(seed, thorough),
         "C08" => gen_c08(seed, thorough),
